@@ -98,7 +98,7 @@ class ExprLexStream(Stream):
         fixed = ["", "a", "a.b.c", "(1..3)", "('(..' .. x)", "(a)", "((1..2))", "[0]", "[ 'a' ]x", "['a'b']", "'x", "1.", "1..2", "-1.5.",
                  "12abc", "a-b?", "<>=!", "=>", "a||b", "a | f: 'x', y", "x² 1²", "(')..' .. 1)", "(\"..", "(1.\n.2)", "-", "- 1", "a\r\nb"]
         out = [{"base": 0, "src": s} for s in fixed]
-        for _ in range(ctx.scale(1200, 12000)):
+        for _ in range(ctx.scale(2500, 15000)):
             out.append({"base": rng.choice([0, 0, 3, 17, 250]), "src": gen_expr(rng)})
         return out
 
@@ -190,7 +190,7 @@ class LiquidLinesStream(Stream):
         for cs in MARKERS:
             for s in ["", "echo 1", "echo 1\n", "  \n", "\n\necho 1", "echo 1 \r\n\r\nif x\r\n", "# c\necho 2", "echo  'a  b'  \t", "aé 1", "\r", " \r\n x"]:
                 out.append({"cs": cs, "base": 0, "src": s})
-        for _ in range(ctx.scale(700, 6000)):
+        for _ in range(ctx.scale(1200, 8000)):
             cs = rng.choice(MARKERS)
             mk = cs.replace("{", "") or "#"
             out.append({"cs": cs, "base": rng.choice([0, 10, 99]), "src": gen_liquid_body(rng, mk)})
@@ -416,7 +416,7 @@ class LexSpansStream(Stream):
     def cases(self, ctx):
         rng = ctx.rng_for("lexspans")
         out = []
-        for _ in range(ctx.scale(600, 6000)):
+        for _ in range(ctx.scale(1000, 8000)):
             comments = rng.chance(40)
             ps = gen_pieces(rng, comments)
             if not ps:
